@@ -209,8 +209,16 @@ def run_isolated(func, *args):
                 shutil.rmtree(_SCRATCH[1], ignore_errors=True)
             os._exit(code)
     os.close(w)
-    with os.fdopen(r, 'rb') as f:
-        data = f.read()
+    try:
+        with os.fdopen(r, 'rb') as f:
+            data = f.read()
+    except BaseException:          # e.g. the caller's alarm fired while the child hangs: do not leave it behind
+        try:
+            os.kill(pid, 9)
+        except OSError:
+            pass
+        os.waitpid(pid, 0)
+        raise
     os.waitpid(pid, 0)
     if not data:
         return ('err', 'isolated child died without a result')
@@ -313,12 +321,13 @@ def load_property(pid: str):
     return importlib.import_module('mc.props.' + pid.lower())
 
 
-def write_replay(pid, tier, seed, v):
+def write_replay(pid, tier, seed, v, block_mode=False):
     rdir = os.environ.get('VERIF_REPLAY_DIR') or os.path.join(VERIF, 'replays')
     os.makedirs(rdir, exist_ok=True)
     body = dict(property=pid, tier=tier, seed=seed, layer=v['layer'], symptom=v['symptom'], locus=v.get('locus', ''),
-                sig=v.get('sig', {}), detail=v.get('detail', ''), case=v['case'], repo_head=repo_head())
-    digest = hashlib.sha1(json.dumps([pid, v['layer'], v['symptom'], v['case']], sort_keys=True, default=str)
+                sig=v.get('sig', {}), detail=v.get('detail', ''), case=v['case'], repo_head=repo_head(), block=v.get('block'),
+                seq=v.get('seq'), block_replay=bool(block_mode))
+    digest = hashlib.sha1(json.dumps([pid, v['layer'], v['symptom'], v['case'], bool(block_mode)], sort_keys=True, default=str)
                           .encode()).hexdigest()[:12]
     path = os.path.join(rdir, '%s-%s.json' % (pid, digest))
     with open(path, 'w') as f:
@@ -340,7 +349,17 @@ def replay_file(path: str):
     layer = next((l for l in layers if l.name == body['layer']), None)
     if layer is None:
         raise SystemExit('harness error: layer %r not found' % body['layer'])
-    layer.prepare_replay() if hasattr(layer, 'prepare_replay') else None
+    if body.get('block_replay'):
+        # history-dependent violation: the case only fails after the cases that precede it in its block (state kept by COMA between
+        # calls inside one process).  Replay = the whole block, from a pristine process.
+        layer.prepare()
+        global _LAYERS
+        _LAYERS = layers
+        st, res = run_isolated(_do_block, layers.index(layer), body['block'])
+        if st != 'ok' or 'harness_error' in res:
+            raise SystemExit('harness error while replaying block: %s' % (res if st != 'ok' else res['harness_error']))
+        return body, [(v['symptom'], v['detail'], v.get('locus', ''), v.get('sig', {})) for v in res['violations']
+                      if v['symptom'] == body['symptom']]
     return body, layer.replay(body['case'])
 
 
@@ -412,6 +431,16 @@ def run_property(pid: str, tier: str, seed: int) -> int:
     for key, v in list(fresh.items())[:6]:
         path = write_replay(pid, tier, seed, v)
         ok, log = confirm_in_fresh_interpreter(pid, path, v['symptom'])
+        if not ok:
+            # not reproducible alone: is it reproducible as "this block, run from a pristine process"?  Then the case depends on the
+            # calls made before it in the same process - still a violation (of a sequence of operations), reported as such.
+            path = write_replay(pid, tier, seed, v, block_mode=True)
+            ok, log = confirm_in_fresh_interpreter(pid, path, v['symptom'])
+            if ok:
+                v = dict(v, sig=dict(v.get('sig', {}), history_dependent=True))
+                print('  note: the violation below does not occur when its case is run alone; it needs the cases that precede it in '
+                      'block %s of layer %s (state kept between calls in one process); the replay file re-runs that block' % (v.get('block'), v['layer']),
+                      flush=True)
         if not ok:
             print('HARNESS-ERROR %s: violation %s of layer %s did not reproduce in a fresh interpreter (%s)\n%s'
                   % (pid, v['symptom'], v['layer'], path, log[-1500:]), flush=True)
